@@ -162,4 +162,21 @@ PROPS = {
         "level_note": "Partial: re-spacing invariance itself is checked by exploration (metamorphic differential run), not by a theorem; what is proved are the structural lemmas it rests on. Trusted: Coq kernel + vm_compute; hand model tied by differential testing.",
         "technique": "machine-checked proof in Coq of the structural lemmas (run skipping, space-free words, spaces-only) + metamorphic oracle and checked model/code correspondence for the invariance",
     },
+    "C06": {
+        "theorems": ["c06_parse_accepts_iff", "c06_parse_never_panics", "c06_parse_inverse", "c06_tokenize_invariant", "c06_history"],
+        "check_targets": ["Check/C06Check.vo"],
+        "case_type": "c06case",
+        "report_fn": "c06_report",
+        "harness": "C06",
+        "n": {"quick": 500, "thorough": 12000},
+        "rule": "cases = generated dictionary (as for the tokenizer family, matrix connector) + a history of 1-5 operations drawn from {map with random permutations of the left/right ids, load a user lexicon (rows in the ORIGINAL ids, homographs of system words), clear it, write/read round trip} + in 1 of 3 cases one malformed mapping (too long, too short, mentions 0, duplicate, out of range) applied after the history + 1-3 sentences; observed: outcome of every operation, stored mapper tables, every connection cost, tokens/lattice of the final dictionary and of the base dictionary that was never mapped; non-trivial: all operations succeeded, at least one mapping is not the identity and some sentence has at least two tokens",
+        "trusted_base": [
+            "modelled, not verified: the three connectors' map_connection_ids (the model states their contract conn'(fr r)(fl l) = conn r l; the oracle checks it on the implementation for EVERY id pair of every case); raw/dual connector histories are generated by the C07 harness, this one uses matrix.def",
+            "crawdad prefix search at list level; CSV parsing of user lexicons is C11's subject",
+        ],
+        "assumptions": ["fewer than 65535 ids per side"],
+        "level_text": "Coq theorems: c06_parse_accepts_iff / c06_parse_never_panics / c06_parse_inverse (ConnIdMapper::parse accepts exactly the permutations of 1..n, returns the inverse table with 0 fixed, never panics), c06_tokenize_invariant (for ANY pair of id functions fixing 0 and ANY connector satisfying conn'(fr r)(fl l) = conn r l, the renamed dictionary gives the same outcome and the same tokens up to the ids: simulation over search_min / insert_node / the scan loop / EOS / the back-pointer walk), c06_history (every dictionary reachable by mappings and user-lexicon loads is the renaming of the base dictionary by the composition of the mappings). Tied to the code on every run: operation outcomes and stored mapper of the real Dictionary vs the model's state machine, full tokenizer correspondence on the final dictionary with rows renamed by the model, and an oracle that compares the real final tokens with the real base tokens renamed by the composed permutation, every connection cost pair, and requires Err (never a panic) for malformed mappings.",
+        "level_note": "Trusted: Coq kernel + vm_compute; connector remapping functions enter as their contract (checked exhaustively per case on the implementation, not proved from a model of the loops); hand model tied by differential testing.",
+        "technique": "machine-checked proof in Coq (permutation characterisation of parse; simulation proof of renaming invariance; composition over histories) + checked model/code correspondence on operation histories",
+    },
 }
